@@ -82,9 +82,23 @@ def bounded(tier, seed):
     out.append(run_cases("weighted-four-stem-shapes", shaped, O.c02_check, knotted,
                          "every knotted perfect matching on 8 positions (all 4-stem conflict graphs) with stem lengths from {1,5} in extreme patterns vs brute force",
                          f"{len(shaped)} structures", sig=repr, relates="convert_to_dot_bracket"))
+    # many levels: k mutually crossing stems need k levels whatever bound the code puts on them; lengths growing 5'->3' make
+    # first-come-first-served (short stems on the low levels) clearly worse than the optimum (closed form for a clique)
+    def clique(k, lens):
+        base = tuple(list(range(k + 1, 2 * k + 1)) + list(range(1, k + 1)))
+        return stretch(base, lens)
+    deep = [clique(11, [1 + (i // 3) for i in range(11)]), clique(12, [1, 1, 1, 2, 2, 2, 3, 3, 3, 4, 4, 5]), clique(5, [1, 2, 3, 4, 5])]
+    if tier != "quick":
+        deep += [clique(k, [1 + (i // 4) for i in range(k)]) for k in (13, 15)]
+    out.append(run_cases("many-level-cliques", deep, O.c02_check_clique, lambda c: True,
+                         "k mutually crossing stems (k = 5, 11, 12; thorough: 13, 15) with lengths growing 5'->3': objective against the closed-form optimum of a clique",
+                         f"{len(deep)} structures", sig=lambda c: f"clique-{len(stems_of(c))}", relates="convert_to_dot_bracket"))
     return out
 
 
 def replay(inp):
+    if inp.get("check") == "many-level-cliques":
+        errs = O.c02_check_clique(tuple(inp["case"]))
+        return {"fails": bool(errs), "errors": errs[:3]}
     errs = O.c02_check(tuple(inp["case"]))
     return {"fails": bool(errs), "errors": errs[:3]}
